@@ -20,6 +20,7 @@ VERIF = os.path.dirname(os.path.dirname(os.path.abspath(__file__)))
 REPO = os.environ.get('VERIF_REPO', '/repo')
 PY = '/venv/bin/python'
 NPROC = int(os.environ.get('VERIF_NPROC', '16'))
+BUDGET_S = float(os.environ.get('VERIF_BUDGET_S', '900'))
 
 
 def ensure_deps():
@@ -105,6 +106,10 @@ def guarded(fn, case=None):
                 return {'cex': [], 'queries': 0, 'inconclusive': [what]}
             try:
                 del cx.guard[:]
+                artefact = [m for m in cx.failed_obligations() if m.startswith('int window')]
+                if artefact:
+                    # the exception follows an arithmetic result that left the bit-vector window: engine limit
+                    return {'cex': [], 'queries': 0, 'inconclusive': [f'{what} after {artefact[0]}']}
                 mdl = cx.check_fresh(want_model=True)
             except core.Inconclusive as e2:
                 return {'cex': [], 'queries': 0, 'inconclusive': [f'{what}; then {e2}']}
@@ -165,15 +170,24 @@ def run_units(modname, units, nproc=NPROC, budget_s=None):
             split = u.get('split') or None
             pending.append((u, pool.apply_async(_work, ((modname, u['fn'], args, (), split),))))
         second = []
+        deadline = t0 + (budget_s or BUDGET_S)
+
+        def collect(ar, label):
+            try:
+                return ar.get(timeout=max(1.0, deadline - time.time()))
+            except multiprocessing.TimeoutError:
+                return {'paths': 0, 'cex': [], 'queries': 0, 'cuts': [], 'samples': [], 'stats': {}, 'unit': label,
+                        'inconclusive': [f'unit {label!r} did not finish within the time budget of this tier']}
         for u, ar in pending:
-            res = ar.get()
+            res = collect(ar, u.get('name', u['fn']))
             merge(total, res)
             for pfx in res.get('cuts', ()):
                 args = dict(u['args'])
                 args['_name'] = u.get('name', u['fn'])
-                second.append(pool.apply_async(_work, ((modname, u['fn'], args, tuple(pfx), None),)))
-        for ar in second:
-            merge(total, ar.get())
+                second.append((args['_name'], pool.apply_async(_work, ((modname, u['fn'], args, tuple(pfx), None),))))
+        for label, ar in second:
+            merge(total, collect(ar, label))
+        pool.terminate()
     total['wall'] = round(time.time() - t0, 2)
     total['jobs'] = len(units) + len(second)
     return total
@@ -292,7 +306,7 @@ def finish(pid, tier, seed, total, extra=None, max_replays=6):
             else:
                 violations.append((path, out))
         else:
-            unreproduced.append((path, out))
+            unreproduced.append((path, f'[{c.get("what")}] {out}'))
             try:
                 os.remove(path)
             except OSError:
@@ -314,11 +328,29 @@ def finish(pid, tier, seed, total, extra=None, max_replays=6):
             pass
         if ok is False:
             total['traces_validated'] = total.get('traces_validated', 0) + len(wit)
+        elif ok:
+            # The real code fails on a concrete member of an explored path.  That is a reproduced failure of the
+            # implementation (found while validating path witnesses on the real code, not by a solver query):
+            # report it, one replay file per failing witness.
+            for w in wit:
+                w = dict(w, property=pid, what='observables of the real code on a witness of an explored path')
+                wpath2 = write_replay(pid, w)
+                ok2, out2 = replay_file(wpath2)
+                if ok2:
+                    violations.append((wpath2, out2 + '\n(found while validating a path witness on the real code)'))
+                    if len(violations) >= 3:
+                        break
+                else:
+                    try:
+                        os.remove(wpath2)
+                    except OSError:
+                        pass
+            if not violations:
+                inconclusive.append('a witness batch failed on the real code but no single witness reproduces: ' + out[-300:])
         elif not cands:
-            inconclusive.append('a witness of a path judged OK fails on the real code (model/engine disagrees with '
-                                'the implementation): ' + out[-400:])
+            inconclusive.append('witness validation on the real code did not complete: ' + out[-400:])
     for path, out in unreproduced:
-        inconclusive.append(f'counterexample did not reproduce on the real code: {out[-300:]}')
+        inconclusive.append(f'counterexample did not reproduce on the real code: {out[:300]}')
     total['inconclusive'] = inconclusive
     write_evidence(pid, tier, seed, total, extra=extra, violations=len(violations))
     for k, path in known_hits:
